@@ -191,3 +191,17 @@
 ; definition of sameHdrName: equality of canonical names (lower-case, compact letter -> long name)
 (assert (forall ((a String) (b String)) (! (= (sameHdrName a b) (= (canonName a) (canonName b))) :pattern ((sameHdrName a b)))))
 
+
+;@chunk kv kvFirst kvFirstU kvHas kvGet
+; index of the first parameter named k in an ordered parameter list, or -1 (definitional axiom)
+(declare-fun kvFirstU ((Seq D_KeyValue) String) Int)
+(define-fun kvFirst ((ps (Seq D_KeyValue)) (k String)) Int (kvFirstU ps k))
+(assert (forall ((ps (Seq D_KeyValue)) (k String)) (!
+  (and (>= (kvFirstU ps k) (- 1)) (< (kvFirstU ps k) (seq.len ps))
+       (=> (>= (kvFirstU ps k) 0) (= (KeyValue_Key (nth_D_KeyValue ps (kvFirstU ps k))) k))
+       (forall ((j Int)) (! (=> (and (<= 0 j) (< j (ite (>= (kvFirstU ps k) 0) (kvFirstU ps k) (seq.len ps))))
+                                (not (= (KeyValue_Key (nth_D_KeyValue ps j)) k)))
+                            :pattern ((nth_D_KeyValue ps j)))))
+  :pattern ((kvFirstU ps k)))))
+(define-fun kvHas ((ps (Seq D_KeyValue)) (k String)) Bool (>= (kvFirstU ps k) 0))
+(define-fun kvGet ((ps (Seq D_KeyValue)) (k String)) String (KeyValue_Value (nth_D_KeyValue ps (kvFirstU ps k))))
